@@ -100,6 +100,21 @@ func (e *Engine) callContract(fr *Frame, st *State, callee *ssa.Function, ct *Co
 		short = key[i+1:]
 	}
 	ord := e.ordinal("call " + short)
+	// ghost assertions of the caller's contract placed before this call: proved here, then assumed
+	if fr != nil && fr.top && e.contract != nil && e.quiet == 0 {
+		for i, aa := range e.contract.Asserts {
+			name := short
+			if j := strings.LastIndex(short, "."); j >= 0 {
+				name = short[j+1:]
+			}
+			if (aa.Callee == short || aa.Callee == name) && aa.N == ord {
+				aenv := e.envAt(fr, st, pos)
+				goal := e.evalClause(aenv, aa.Clause)
+				e.oblige("assert", fmt.Sprintf("assert[%s#%d/%s]", name, ord, clauseName(aa.Clause, i)), st.guard, goal, pos)
+				e.assumps = append(e.assumps, Assump{T: Implies(st.guard, goal), Tag: "lemma"})
+			}
+		}
+	}
 	pre := st.clone()
 	env := e.calleeEnv(pre, pre, ct, callee, args)
 	if callee == nil {
@@ -153,6 +168,9 @@ func (e *Engine) callContract(fr *Frame, st *State, callee *ssa.Function, ct *Co
 	}
 	bindResults(post, res, callee, sig)
 	for _, c := range ct.Ensures {
+		if strings.HasPrefix(c.Label, "local-") {
+			continue // proved for the callee, deliberately not exported to callers (avoids matching loops)
+		}
 		e.assume(Implies(st.guard, e.evalClause(post, c)))
 	}
 	return res
